@@ -93,6 +93,29 @@ def outLen (addr : Nat) (input : Bytes) : Option Nat :=
   | 5 => some (modexpOutLen (hdrWord input 0) (hdrWord input 64))
   | _ => some 0
 
+/-- bytes `Run` materialises besides reading its input (contracts.go): ecrecover pads the input to 128 bytes (only if shorter),
+    appends v to a 64-byte copy and left-pads a 20-byte hash to 32; sha256 / ripemd160 produce a 32-byte digest (ripemd's is
+    left-padded from 20); identity returns its input slice itself; the bn256 stand-ins return an empty slice; modexp see
+    `modexpRunBuffers`. Hash states and the secp256k1 recovery use constant-size scratch, counted in `scratchConst`. -/
+def scratchConst : Nat := 1024
+
+def runBuffers (addr : Nat) (input : Bytes) : Nat :=
+  match addr with
+  | 1 => (if input.length < 128 then 128 else 0) + 65 + 32
+  | 2 => 32
+  | 3 => 20 + 32
+  | 4 => 0
+  | 5 => modexpRunBuffers (hdrWord input 0) (hdrWord input 32) (hdrWord input 64)
+  | _ => 0
+
+/-- number of compression-function / copy steps `Run` performs on the input: per 64-byte block for the hashes, none otherwise
+    (identity returns the slice); everything else in the non-modexp precompiles is constant work -/
+def runSteps (addr : Nat) (input : Bytes) : Nat :=
+  match addr with
+  | 2 => input.length / 64 + 2
+  | 3 => input.length / 64 + 2
+  | _ => 1
+
 /-- RunPrecompiledContract: (ok, leftover gas) -/
 def runPrecompile (addr : Nat) (input : Bytes) (gas : Nat) : Bool × Nat :=
   let req := requiredGas addr input
